@@ -143,6 +143,31 @@ def rule_or_finally(repo, col):
               'an exception thrown in at the yield leaves the generator '
               'without seterr(**saved): the restoring statement is not in a '
               'finally/except enclosing the yield')
+    # a block can also be left by GeneratorExit / KeyboardInterrupt /
+    # SystemExit: restoring in `except Exception:` does not cover those
+    for t in ast.walk(f):
+        if isinstance(t, ast.Try) and any(
+                isinstance(x, ast.Yield) for b_ in t.body
+                for x in ast.walk(b_)):
+            in_finally = any(isinstance(c, ast.Call) and
+                             call_name(c) == 'seterr'
+                             for b_ in t.finalbody for c in ast.walk(b_))
+            if in_finally:
+                continue
+            broad = False
+            for h in t.handlers:
+                names = {x.id for x in ast.walk(h.type)
+                         if isinstance(x, ast.Name)} if h.type is not None \
+                    else set()
+                if h.type is None or 'BaseException' in names:
+                    broad = True
+            col.check(broad, rule, ERR, 'errstate',
+                      'restore-on-any-exit', t,
+                      'the restoring handler catches everything',
+                      'the saved profile is re-installed by `except '
+                      'Exception` handlers only: a block left by '
+                      'GeneratorExit (an abandoned generator), '
+                      'KeyboardInterrupt or SystemExit keeps the override')
 
 
 # --------------------------------------------------------------------------
